@@ -25,8 +25,8 @@ import (
 	"io"
 	"log"
 	"net/http"
-	"strings"
 	"strconv"
+	"strings"
 	"sync"
 	"testing"
 	"testing/synctest"
@@ -776,7 +776,7 @@ func c15Run(c c15Case, r *vp.Rec) error {
 	h.mu.Lock()
 	started := append([]int(nil), h.started...)
 	h.mu.Unlock()
-	nBadRst, nBad4xx := 0, 0
+	nBadRst, nBad4xx, n431 := 0, 0, 0
 	for _, x := range streams {
 		if x.mustRef && started[x.plan] != 0 {
 			return fmt.Errorf("stream %d over the advertised limit reached the handler", x.id)
@@ -798,6 +798,9 @@ func c15Run(c c15Case, r *vp.Rec) error {
 			nBadRst++
 		case len(x.status) == 3 && x.status[0] == '4':
 			nBad4xx++
+			if x.status == "431" {
+				n431++
+			}
 		default:
 			return fmt.Errorf("malformed request (%s) on stream %d was not rejected: RST_STREAM seen=%v code=%v, response status=%q", c15BadNames[x.bad], x.id, x.srvReset, x.srvCode, x.status)
 		}
@@ -838,6 +841,9 @@ func c15Run(c c15Case, r *vp.Rec) error {
 	}
 	if nBad4xx > 0 {
 		r.Class("malformed-4xx")
+	}
+	if n431 > 0 {
+		r.Class("header-list-too-long-431")
 	}
 	if settingsSent > 1 {
 		r.Class("settings-acked")
